@@ -9,11 +9,62 @@
 //   A  `"ranges": []`                 -> `converted_buckets[0]`: index out of bounds PANIC inside the collector
 //                                        (expected: an `InvalidArgument` error, or an empty bucket list)
 //   B  `"ranges": [{"from": 10, "to": 5}]` -> accepted; bucket list [0..10, 10..5, 5..MAX]: the starts are no longer sorted
-//                                        and `10..5` contains no value, yet a document with value exactly 10 is counted in
-//                                        the bucket "10-5" (direct computation: `10 <= v < 5` holds for no v, count 0)
+//                                        and the two generated filler buckets "*-10" and "5-*" overlap on [5, 10): a value
+//                                        in the overlap is counted in one of them only (direct computation: in both)
 //
 // Ordinary integration test, public API only: copy into tests/ of a copy of the tree,
 //   cargo test --offline --test demo_range_agg_ranges -- --test-threads 1 --nocapture
+// C (observation, unit terms_cutoff): `TermsAggregationInternal::from_req` evaluates `size * 10` in u32 even when it is not needed
+// (`req.segment_size.unwrap_or(size * 10)`): a terms request with "size" > 429_496_729 panics in debug builds
+// ("attempt to multiply with overflow"); release builds wrap and `.max(size)` repairs the value.
+#[test]
+fn c_terms_size_above_u32_max_div_10() {
+    let index = index_with(&[3, 7, 10, 12]).unwrap();
+    match run(&index, r#"{"t": {"terms": {"field": "score", "size": 1000000000}}}"#) {
+        Ok(v) => println!("C: Ok({v})"),
+        Err(e) => println!("C: Err({e})"),
+    }
+}
+
+// D (no defect observed; documents a dependency on unspecified std behaviour): an EMPTY request range (from == to) duplicates a
+// bucket start.  `get_bucket_pos` uses `binary_search_by_key`, whose contract allows ANY of several equal keys to be returned;
+// the Verus unit therefore proves the lookup only for non-empty ranges.  With the std of rustc 1.95 the last match is returned
+// and the value lands in the non-empty bucket.
+#[test]
+fn d_empty_range_duplicate_start() {
+    let index = index_with(&[3, 5, 7, 12]).unwrap();
+    let v = run(&index, r#"{"r": {"range": {"field": "score", "ranges": [{"from": 5.0, "to": 5.0}, {"from": 5.0, "to": 10.0}]}}}"#).unwrap();
+    println!("D: {v}");
+    for b in v["r"]["buckets"].as_array().unwrap() {
+        let from = b.get("from").and_then(|x| x.as_f64());
+        let to = b.get("to").and_then(|x| x.as_f64());
+        let direct = [3u64, 5, 7, 12]
+            .iter()
+            .filter(|&&x| from.map_or(true, |f| (x as f64) >= f) && to.map_or(true, |t| (x as f64) < t))
+            .count() as u64;
+        assert_eq!(b["doc_count"].as_u64().unwrap(), direct, "bucket {}", b["key"]);
+    }
+}
+
+// E (candidate finding, C14 histogram / fill_gaps integer arithmetic, src/aggregation/bucket/histogram/histogram.rs:794-798):
+// the up-front memory check of `intermediate_buckets_to_final_buckets_fill_gaps` computes
+//   added_buckets * size_of::<IntermediateHistogramBucketEntry>() as u64        (48 bytes per bucket)
+// unchecked in u64, `added_buckets` being (last_bucket_num - first_bucket_num) from the user's `extended_bounds`.
+// extended_bounds = [0, 2^60], interval 1, no matching document: added_buckets = 2^60 and 2^60 * 48 = 3 * 2^64:
+//   debug builds: panic "attempt to multiply with overflow";
+//   release builds: the product wraps to exactly 0, the memory guard is passed, and `generate_buckets_with_opt_minmax` then asks
+//   for `Vec::with_capacity(2^60 + 1)` f64s (> isize::MAX bytes): "capacity overflow" panic instead of the intended
+//   `AggregationError::MemoryExceeded` (recorded below, `cargo test --release`).
+#[test]
+fn e_histogram_extended_bounds_memory_guard_overflow() {
+    let index = index_with(&[]).unwrap();
+    let req = r#"{"h": {"histogram": {"field": "score", "interval": 1.0, "extended_bounds": {"min": 0.0, "max": 1152921504606846976.0}}}}"#;
+    match run(&index, req) {
+        Ok(v) => println!("E: Ok({})", v.to_string().len()),
+        Err(e) => println!("E: Err({e})"),
+    }
+}
+
 // Recorded runs: see the end of this file.
 use serde_json::Value;
 use tantivy::aggregation::agg_req::Aggregations;
@@ -45,11 +96,10 @@ fn run(index: &Index, req: &str) -> tantivy::Result<Value> {
 #[test]
 fn a_empty_ranges_is_an_error_not_a_panic() {
     let index = index_with(&[3, 7, 10, 12]).unwrap();
-    let r = std::panic::catch_unwind(|| run(&index, r#"{"r": {"range": {"field": "score", "ranges": []}}}"#));
-    match r {
-        Ok(Ok(v)) => println!("A: Ok({v})"),
-        Ok(Err(e)) => println!("A: Err({e})"),
-        Err(_) => panic!("A: the search PANICKED on `\"ranges\": []`"),
+    // expected: Ok(..) with no bucket, or Err(InvalidArgument); a panic inside the collector fails this test
+    match run(&index, r#"{"r": {"range": {"field": "score", "ranges": []}}}"#) {
+        Ok(v) => println!("A: Ok({v})"),
+        Err(e) => println!("A: Err({e})"),
     }
 }
 
@@ -74,3 +124,19 @@ fn b_reversed_range_bucket_is_empty() {
         );
     }
 }
+
+// Recorded run (2026-09-26, this sandbox, unmodified /repo tree f9fc5ad):
+//   test a_empty_ranges_is_an_error_not_a_panic ... FAILED
+//     thread panicked at src/aggregation/bucket/range.rs:502:25: index out of bounds: the len is 0 but the index is 0
+//   test b_reversed_range_bucket_is_empty ... FAILED
+//     B: {"r":{"buckets":[{"doc_count":2,"key":"*-10","to":10.0},{"doc_count":2,"from":5.0,"key":"5-*"},{"doc_count":0,"from":10.0,"key":"10-5","to":5.0}]}}
+//     bucket "5-*" (from Some(5.0) to None): doc_count differs from the direct computation over [3, 7, 10, 12]  left: 2  right: 3
+//   test c_terms_size_above_u32_max_div_10 ... FAILED (debug profile)
+//     thread panicked at src/aggregation/bucket/term_agg/mod.rs:320:59: attempt to multiply with overflow
+//   test d_empty_range_duplicate_start ... ok   (rustc 1.95.0; value 5 counted in "5-10", "5-5" stays 0)
+//   test e_histogram_extended_bounds_memory_guard_overflow ... FAILED (debug profile)
+//     thread panicked at src/aggregation/bucket/histogram/histogram.rs:797:9: attempt to multiply with overflow
+//   same test, `cargo test --release --offline --test demo_range_agg_ranges e_hist`: FAILED
+//     thread panicked at library/alloc/src/raw_vec/mod.rs:28:5: capacity overflow
+//       3: alloc::raw_vec::handle_error  4: tantivy::aggregation::bucket::histogram::histogram::intermediate_histogram_buckets_to_final_buckets
+//     (the wrapped product 2^60 * 48 = 0 passed `limits.add_memory_consumed`, then Vec::with_capacity(2^60 + 1) was attempted)
